@@ -211,6 +211,9 @@ def _worker (item):
     if bad:
       rep.violation("%s:%s:%s" % (PID, bad[0], hub), "%s [%s]" % (bad[1], cfg_name(cfgd)),
                     dict(config=dict(cfgd, funcs=None if cfgd["funcs"] is None else list(cfgd["funcs"])), choices=ctx.choices()))
+    if rep.evaluations == 1 and prefixes and prefixes[0]:
+      rep.sample(dict(scenario=cfg_name(cfgd), deviations=[(i, t[2], t[0]) for i, t in enumerate(ctx.trace) if t[0]],
+                      scheduling_points=len(ctx.trace), verdict=bad and bad[0], observation=out))
     if rep.evaluations % 200 == 0: gc.collect()
   for pfx in prefixes:
     explore(lambda ctx: SCEN[cfgd["scen"]](ctx, cfgd), dev_bound=cfgd["bound"], prefix0=pfx, on_exec=on_exec)
